@@ -9,3 +9,7 @@ SIG_VALIDATE_LOOP = "oracle:validate:unchanged-branch-redispatched-forever"
 # Finding D37 (open): the skip-path analogue of D19: the record of an input is replaced while
 # try_skip_job is still checking, and the skip is recorded none the less.
 SIG_SKIP_WINDOW = "oracle:skip:succeeded:input-re-recorded-during-check"
+# Finding C03-amended-record (open): the analogue of D19 for AMENDED inputs: the record of an amended static
+# input is replaced after the amend request (another step's pre-run check records the edited file, or
+# the file is withdrawn / declared / confirmed anew) while the command still runs; SUCCEEDED none the less.
+SIG_AMENDED_RECORD = "oracle:succeeded:amended-input-re-recorded-after-request"
